@@ -168,6 +168,133 @@ func init() {
 		}
 		w.P("/-- connection.go: every call of `flowcontrol.NewConnectionFlowController` passes a function literal as `allowWindowIncrease` -/")
 		w.P("def connCallbackNeverNil : Bool := %v", sites == lits)
+
+		// connection.go Conn.newFlowController: which peer transport parameter seeds the send window of which stream kind
+		// (codes: 0 InitialMaxStreamDataBidiLocal, 1 InitialMaxStreamDataBidiRemote, 2 InitialMaxStreamDataUni)
+		nfc := findMethod(cf, "newFlowController")
+		if nfc == nil || nfc.Body == nil {
+			return fmt.Errorf("Conn.newFlowController not found")
+		}
+		paramCode := func(e ast.Expr) int {
+			t := exprText(e)
+			for i, n := range []string{"InitialMaxStreamDataBidiLocal", "InitialMaxStreamDataBidiRemote", "InitialMaxStreamDataUni"} {
+				if strings.HasSuffix(t, ".peerParams."+n) || t == "p."+n {
+					return i
+				}
+			}
+			return -1
+		}
+		uniF, ownF, peerF := -1, -1, -1
+		rwFromConfig := false
+		for _, st := range nfc.Body.List {
+			switch x := st.(type) {
+			case *ast.AssignStmt:
+				if len(x.Lhs) == 1 && len(x.Rhs) == 1 && exprText(x.Lhs[0]) == "initialSendWindow" {
+					uniF = paramCode(x.Rhs[0])
+				}
+			case *ast.IfStmt:
+				if exprText(x.Cond) != "id.Type() == protocol.StreamTypeBidi" {
+					continue
+				}
+				for _, st2 := range x.Body.List {
+					inner, ok := st2.(*ast.IfStmt)
+					if !ok || exprText(inner.Cond) != "id.InitiatedBy() == c.perspective" {
+						continue
+					}
+					get := func(b *ast.BlockStmt) int {
+						if b == nil || len(b.List) != 1 {
+							return -1
+						}
+						if a, ok := b.List[0].(*ast.AssignStmt); ok && len(a.Rhs) == 1 && exprText(a.Lhs[0]) == "initialSendWindow" {
+							return paramCode(a.Rhs[0])
+						}
+						return -1
+					}
+					ownF = get(inner.Body)
+					if eb, ok := inner.Else.(*ast.BlockStmt); ok {
+						peerF = get(eb)
+					}
+				}
+			case *ast.ReturnStmt:
+				if len(x.Results) == 1 {
+					if ce, ok := x.Results[0].(*ast.CallExpr); ok && exprText(ce.Fun) == "flowcontrol.NewStreamFlowController" && len(ce.Args) >= 5 {
+						rwFromConfig = exprText(ce.Args[2]) == "protocol.ByteCount(c.config.InitialStreamReceiveWindow)" &&
+							exprText(ce.Args[3]) == "protocol.ByteCount(c.config.MaxStreamReceiveWindow)" &&
+							exprText(ce.Args[4]) == "initialSendWindow" && exprText(ce.Args[1]) == "c.connFlowController"
+					}
+				}
+			}
+		}
+		if uniF < 0 || ownF < 0 || peerF < 0 {
+			return fmt.Errorf("Conn.newFlowController no longer has the shape `w := peerParams.X; if bidi { if id.InitiatedBy() == c.perspective { w = peerParams.Y } else { w = peerParams.Z } }` (got %d %d %d)", uniF, ownF, peerF)
+		}
+		w.P("/-- connection.go `Conn.newFlowController`: peer parameter used as initial send window of a unidirectional stream")
+		w.P("    (codes: 0 InitialMaxStreamDataBidiLocal, 1 InitialMaxStreamDataBidiRemote, 2 InitialMaxStreamDataUni) -/")
+		w.P("def newFCUniField : Nat := %d", uniF)
+		w.P("/-- … of a bidirectional stream with `id.InitiatedBy() == c.perspective` (a stream we opened) -/")
+		w.P("def newFCOwnBidiField : Nat := %d", ownF)
+		w.P("/-- … of a bidirectional stream the peer opened -/")
+		w.P("def newFCPeerBidiField : Nat := %d", peerF)
+		w.P("/-- `newFlowController` passes `c.connFlowController`, `config.InitialStreamReceiveWindow`, `config.MaxStreamReceiveWindow`, `initialSendWindow` to NewStreamFlowController -/")
+		w.P("def newFCReceiveWindowFromConfig : Bool := %v", rwFromConfig)
+
+		// connection.go: every wire.TransportParameters literal advertises config.InitialStreamReceiveWindow for all three
+		// stream kinds and config.InitialConnectionReceiveWindow as initial_max_data
+		lits, good := 0, 0
+		ast.Inspect(cf, func(n ast.Node) bool {
+			cl, ok := n.(*ast.CompositeLit)
+			if !ok || exprText2(cl.Type) != "wire.TransportParameters" {
+				return true
+			}
+			fields := map[string]string{}
+			for _, el := range cl.Elts {
+				if kv, ok := el.(*ast.KeyValueExpr); ok {
+					fields[exprText(kv.Key)] = exprText(kv.Value)
+				}
+			}
+			if _, has := fields["InitialMaxData"]; !has {
+				return true
+			}
+			lits++
+			if fields["InitialMaxStreamDataBidiLocal"] == "protocol.ByteCount(s.config.InitialStreamReceiveWindow)" &&
+				fields["InitialMaxStreamDataBidiRemote"] == "protocol.ByteCount(s.config.InitialStreamReceiveWindow)" &&
+				fields["InitialMaxStreamDataUni"] == "protocol.ByteCount(s.config.InitialStreamReceiveWindow)" &&
+				fields["InitialMaxData"] == "protocol.ByteCount(s.config.InitialConnectionReceiveWindow)" {
+				good++
+			}
+			return true
+		})
+		w.P("/-- connection.go: every `wire.TransportParameters{…}` literal (%d found) advertises `config.InitialStreamReceiveWindow` as all three", lits)
+		w.P("    initial_max_stream_data_* and `config.InitialConnectionReceiveWindow` as initial_max_data -/")
+		w.P("def advertisedWindowsFromConfig : Bool := %v", lits > 0 && lits == good)
+
+		// streams_map.go HandleTransportParameters: parameters applied to streams that are already open (0-RTT)
+		smf, err := parser.ParseFile(c.Fset, filepath.Join(c.Repo, "streams_map.go"), nil, 0)
+		if err != nil {
+			return err
+		}
+		htp := findMethod(smf, "HandleTransportParameters")
+		ob, ou := -1, -1
+		if htp != nil {
+			ast.Inspect(htp, func(n ast.Node) bool {
+				if ce, ok := n.(*ast.CallExpr); ok && len(ce.Args) == 1 {
+					switch exprText(ce.Fun) {
+					case "m.outgoingBidiStreams.UpdateSendWindow":
+						ob = paramCode(ce.Args[0])
+					case "m.outgoingUniStreams.UpdateSendWindow":
+						ou = paramCode(ce.Args[0])
+					}
+				}
+				return true
+			})
+		}
+		if ob < 0 || ou < 0 {
+			return fmt.Errorf("streamsMap.HandleTransportParameters no longer updates the outgoing streams' send windows from the peer parameters")
+		}
+		w.P("/-- streams_map.go `HandleTransportParameters`: parameter applied to already open outgoing bidirectional streams (same codes) -/")
+		w.P("def smapOutgoingBidiField : Nat := %d", ob)
+		w.P("/-- … to already open outgoing unidirectional streams -/")
+		w.P("def smapOutgoingUniField : Nat := %d", ou)
 		return nil
 	})
 }
@@ -190,6 +317,13 @@ func (c *Ctx) EmitRatConst(w *LeanFile, p *Pkg, goName string) error {
 	w.P("def %s_num : Nat := %s", goName, num.ExactString())
 	w.P("def %s_den : Nat := %s", goName, den.ExactString())
 	return nil
+}
+
+func exprText2(e ast.Expr) string {
+	if e == nil {
+		return ""
+	}
+	return exprText(e)
 }
 
 func cmpCode(op string) int {
